@@ -1146,8 +1146,8 @@ def process_results(ctx, cases, results, what='numpy'):
             compare_model(ctx, case, grids, mo, what)
 
 
-def check_extra_streams(ctx, pool, rounds=1):
-    """Dask-backed non-square rasters and in-process call sequences, oracle only"""
+def extra_requests(ctx, rounds=1):
+    """Dask-backed non-square rasters and in-process call sequences (oracle only): (requests, meta)"""
     reqs, meta = [], []
     for _ in range(rounds):
         for c in dask_stream_cases(ctx.rng):
@@ -1156,7 +1156,10 @@ def check_extra_streams(ctx, pool, rounds=1):
         for steps in sequence_cases(ctx.rng):
             reqs.append({'op': 'seq', 'steps': steps})
             meta.append(('seq', [dict(st['case'], only=st['only']) for st in steps]))
-    res = pool.map(reqs)
+    return reqs, meta
+
+
+def process_extra(ctx, meta, res):
     for (kind, cs), r in zip(meta, res):
         rs = [r] if kind == 'dask' else r.get('seq', [])
         if 'fatal' in r or len(rs) != len(cs):
@@ -1170,18 +1173,25 @@ def check_extra_streams(ctx, pool, rounds=1):
             oracle(ctx, case_e, grids, 'dask-backed' if kind == 'dask' else 'call %d of an in-process sequence' % (k + 1))
 
 
-def run(ctx):
-    if ctx.quick():
-        cases = build_cases(ctx, 21, 5, 4)
-    else:
-        cases = build_cases(ctx, 420, 120, 60)
+def run_all(ctx, cases, rounds):
+    ereqs, emeta = extra_requests(ctx, rounds)
     pool = ImplPool()
     try:
-        results = pool.map([{'op': 'numpy3', 'case': c} for c in cases])
-        check_extra_streams(ctx, pool, 1 if ctx.quick() else 12)
+        # the multi-call requests first, so that they overlap with the single-case ones
+        res = pool.map(ereqs + [{'op': 'numpy3', 'case': c} for c in cases])
     finally:
         pool.close()
-    process_results(ctx, cases, results)
+    process_extra(ctx, emeta, res[:len(ereqs)])
+    process_results(ctx, cases, res[len(ereqs):])
+
+
+def run(ctx):
+    if ctx.quick():
+        cases = build_cases(ctx, 19, 5, 4)
+        run_all(ctx, cases, 1)
+    else:
+        cases = build_cases(ctx, 420, 120, 60)
+        run_all(ctx, cases, 12)
     ctx.exhaustive = False
 
 
@@ -1190,14 +1200,7 @@ def search(ctx):
     model = ctx.model
     ctx.model = None
     try:
-        cases = build_cases(ctx, 150, 60, 20)
-        pool = ImplPool()
-        try:
-            results = pool.map([{'op': 'numpy3', 'case': c} for c in cases])
-            check_extra_streams(ctx, pool, 4)
-        finally:
-            pool.close()
-        process_results(ctx, cases, results)
+        run_all(ctx, build_cases(ctx, 150, 60, 20), 4)
     finally:
         ctx.model = model
 
